@@ -110,6 +110,10 @@ Lemma message_texts_present :
      slit "token.go:String" 0; slit "token.go:String" 1; slit "token.go:String" 3;
      slit "parser.go:popValue" 0; msg_close; msg_unclosed] = true.
 Proof. vm_compute. reflexivity. Qed.
+(* the cut of a literal in Token.String: threshold and kept length are there, kept <= threshold *)
+Lemma token_string_cut_present :
+  match TokensGen.token_string_ints with [a; b] => N.leb b a && N.ltb 0 b | _ => false end = true.
+Proof. vm_compute. reflexivity. Qed.
 Lemma expected_sites_present :
   forallb (fun l => match l with [] => false | _ => true end)
     [exp_ident; exp_elems; exp_value; exp_tag; exp_end; exp_assign; exp_plus_assign; exp_header; exp_fragment] = true.
